@@ -298,6 +298,17 @@ def depGraph (spans : List Span) : List ((Nat × Nat) × Nat) :=
   let ps := depPairs spans
   (isort pairLe (uniq ps)).map (fun k => (k, ps.count k))
 
+/-- `dropRedeliveredSpans` (patch c12-11) on the spans of ONE trace: of the spans with one span id the first is kept
+(a span delivered more than once is stored once per delivery); `seen` = the ids met so far (the Go map) -/
+def dedupAux (seen : List Nat) : List Span → List Span
+  | [] => []
+  | s :: r => if seen.contains s.id then dedupAux seen r else s :: dedupAux (s.id :: seen) r
+
+def dedupIds (spans : List Span) : List Span := dedupAux [] spans
+
+/-- MakeTracesDependancyGraph on the collected spans: re-delivered spans are dropped, then the fold -/
+def depGraphOf (spans : List Span) : List ((Nat × Nat) × Nat) := depGraph (dedupIds spans)
+
 /-- entry-span rule of ProcessRedTracesIngest -/
 def isEntry (spans : List Span) (s : Span) : Bool :=
   if s.parent == 0 then true else
@@ -346,5 +357,8 @@ def redRow (spans : List Span) (svc : Nat) : RedRow :=
 def red (spans : List Span) : List RedRow :=
   let svcs := sortN (uniq ((spans.filter (isEntry spans)).map (·.service)))
   svcs.map (redRow spans)
+
+/-- ProcessRedTracesIngest on the collected spans: re-delivered spans are dropped (c12-11), then the fold -/
+def redOfSpans (spans : List Span) : List RedRow := red (dedupIds spans)
 
 end SigModel.Trace
